@@ -77,13 +77,18 @@ def monSsQuote (amp : Nat) (decimals amounts : List Nat) (offerIdx askIdx offer 
   -- then misses the bound by large factors (observed: 442 units on an output of 2.5·10^8, amp 1).  Class: highest
   -- precision 18 AND a reserve below 10^21 units AND the gross output is exactly the original algorithm's value
   let smallest := (listMin (normBalances decimals amounts)).getD 0
-  let noGuardDigits := maxP == 18 && decide (smallest < 10 ^ 21) &&
-    origGross amp decimals amounts offerIdx askIdx offer == some gross
+  -- every recorded class is tied to its numerical cause: the gross output is EXACTLY the value the original algorithm
+  -- computes for this state (a change of the arithmetic that moves the output at all is outside every known class, however
+  -- small the move: e.g. a Newton step for D that divides before it multiplies shifts the output of a pool holding a million
+  -- 18-decimals tokens by 10^6 units — far inside "10^-15 of the reserve", far outside the property's two units)
+  let isOrig := origGross amp decimals amounts offerIdx askIdx offer == some gross
+  let noGuardDigits := maxP == 18 && decide (smallest < 10 ^ 21) && isOrig
   if !(gross ≤ amounts.getD askIdx 0) then some "C19-output-exceeds-reserve"
+  else if gross * scale ≤ exact + tol && exact ≤ gross * scale + tol then none
+  else if !isOrig then some "C19-quote-accuracy"
   else if !(gross * scale ≤ exact + tolKnown && exact ≤ gross * scale + tolKnown) then
     (if noGuardDigits then some "C19-quote-accuracy-18dec" else some "C19-quote-accuracy,C19-quote-accuracy-minor")
-  else if !(gross * scale ≤ exact + tol && exact ≤ gross * scale + tol) then some "C19-quote-accuracy-minor"
-  else none
+  else some "C19-quote-accuracy-minor"
 
 /-- C03: the exact invariant after the swap is at least the exact invariant before (compared at
     10^-6 of a highest-precision unit).  When it decreases, the cause is looked up: if the gross
